@@ -68,3 +68,23 @@ func c16Facts(l *leanDefs) {
 	l.def("c16GroupedActions", "List String", leanStrList(grouped), src)
 	l.def("c16Stale", "Bool", map[bool]string{true: "true", false: "false"}[stale], src)
 }
+
+// C16 skeletons (tie T3): the vault holds its lock from the lookup of a collector to the store of the
+// newly registered one (the model's getOrCreateColl is ONE atomic step); HashLabelValues feeds every
+// label value, each followed by the separator, to the hasher (the model keys a series by its values).
+func init() {
+	skeletonTargets = append(skeletonTargets,
+		skelTarget{Name: "C16.GroupedVault.GetOrCreateCounterCollector", File: "pkg/metric_storage/vault/vault.go", Recv: "GroupedVault", Func: "GetOrCreateCounterCollector",
+			Fields: []string{"collectors", "registerer"},
+			Calls:  []string{"NewConstCounterCollector", "Register", "UpdateLabels", "IsSubset"}},
+		skelTarget{Name: "C16.GroupedVault.GetOrCreateGaugeCollector", File: "pkg/metric_storage/vault/vault.go", Recv: "GroupedVault", Func: "GetOrCreateGaugeCollector",
+			Fields: []string{"collectors", "registerer"},
+			Calls:  []string{"NewConstGaugeCollector", "Register", "UpdateLabels", "IsSubset"}},
+		skelTarget{Name: "C16.GroupedVault.ExpireGroupMetrics", File: "pkg/metric_storage/vault/vault.go", Recv: "GroupedVault", Func: "ExpireGroupMetrics",
+			Fields: []string{"collectors"},
+			Calls:  []string{"ExpireGroupMetrics"}},
+		skelTarget{Name: "C16.HashLabelValues", File: "pkg/metric/collector.go", Recv: "", Func: "HashLabelValues",
+			Fields: []string{},
+			Calls:  []string{"New64a", "Write", "Sum64"}},
+	)
+}
